@@ -166,8 +166,10 @@ func decodeEvent(s *rlp.Stream) (interface{}, error) {
 func decodeCandidate(s *rlp.Stream) (interface{}, error) {
 	_, size, _ := s.Kind()
 	if size <= 0 {
-		var result interface{}
-		err := s.Decode(&result)
+		// an empty profile. It must be a *types.Profile too, or the log can not be redone
+		var empty interface{}
+		err := s.Decode(&empty)
+		result := make(types.Profile)
 		return &result, err
 	} else {
 		result := make(types.Profile)
@@ -197,9 +199,10 @@ func decodeString(s *rlp.Stream) (interface{}, error) {
 func decodeAsset(s *rlp.Stream) (interface{}, error) {
 	_, size, _ := s.Kind()
 	if size <= 0 {
+		// no asset. It must be a *types.Asset too, like NewAssetCodeLog created it, or the log can not be redone
 		var result interface{}
 		err := s.Decode(&result)
-		return nil, err
+		return (*types.Asset)(nil), err
 	} else {
 		var result types.Asset
 		result.TotalSupply = new(big.Int)
@@ -226,9 +229,10 @@ func decodeEquity(s *rlp.Stream) (interface{}, error) {
 func decodeSigners(s *rlp.Stream) (interface{}, error) {
 	_, size, _ := s.Kind()
 	if size <= 0 {
+		// no signers. It must be a types.Signers too, or the log can not be redone
 		var result interface{}
 		err := s.Decode(&result)
-		return nil, err
+		return make(types.Signers, 0), err
 	} else {
 		result := make(types.Signers, 0)
 		err := s.Decode(&result)
